@@ -522,6 +522,22 @@ def main():
                     r.get("covers_total"), ("; ".join(r["notes"]))[:300]))
                 for it in r.get("failed", [])[:6]:
                     log("      FAILED: %s @ %s" % (it["desc"], it["loc"]))
+        # harnesses that ran out of memory while sharing the machine get one more attempt, alone
+        oom = [r for r in results if r["status"] == "inconclusive"
+               and any(("memory" in n.lower() or "no exit code" in n.lower()) for n in r["notes"])]
+        for r in oom:
+            h = dict(next(x for x in hs if x["name"] == r["harness"]))
+            h["mem_gb"] = max(h.get("mem_gb", 12), 48)
+            shutil.rmtree(os.path.join(scratch, "t_" + h["name"]), ignore_errors=True)
+            log("  %-44s ran out of memory in the parallel pass; second attempt, alone, limit %d GB" % (h["name"], h["mem_gb"]))
+            r2 = _run_harness(h, scratch, base, prop, known, a.keep)
+            r2["notes"].append("second attempt (alone) after running out of memory in the parallel pass")
+            results[results.index(r)] = r2
+            log("  %-44s %-12s %6.1fs checks=%s covers=%s/%s %s" % (
+                r2["harness"], r2["status"], r2.get("wall_s", 0), r2.get("checks"), r2.get("covers_sat"),
+                r2.get("covers_total"), ("; ".join(r2["notes"]))[:300]))
+            for it in r2.get("failed", [])[:6]:
+                log("      FAILED: %s @ %s" % (it["desc"], it["loc"]))
     finally:
         if not a.keep:
             shutil.rmtree(scratch, ignore_errors=True)
